@@ -513,6 +513,17 @@ class Unit:
                 # prefer the definition seen first (header statics repeat across units)
                 self.funcs.setdefault(f.name, f)
         self._loaded = True
+        if os.environ.get("NLX_INLINE", "0") == "1":
+            # rules see every function with the file-local helpers it calls spliced in (engine/inline.py): extracting a
+            # block into a static helper, or inlining one, does not change what a rule reads
+            import inline
+            plain = dict(self.funcs)
+            self.plain = plain
+            for name, f in plain.items():
+                g = inline.inlined(f)
+                if g is not f:
+                    g.plain = f
+                    self.funcs[name] = g
         return self
 
 
